@@ -136,8 +136,9 @@ func (r *Reader) failErr() error {
 }
 
 // FailureKinds are the errors real sources fail with: a private sentinel, a truncated
-// transport (io.ErrUnexpectedEOF, bare or wrapped), a closed pipe.
-var FailureKinds = []error{ErrInjected, io.ErrUnexpectedEOF, wrapped{io.ErrUnexpectedEOF}, io.ErrClosedPipe, io.ErrNoProgress}
+// transport (io.ErrUnexpectedEOF, bare or wrapped), a closed pipe, and a failure that wraps io.EOF
+// ("connection lost: EOF"): an error, not the end of the stream - io.Reader's end is the bare io.EOF, compared with ==.
+var FailureKinds = []error{ErrInjected, io.ErrUnexpectedEOF, wrapped{io.ErrUnexpectedEOF}, io.ErrClosedPipe, io.ErrNoProgress, wrapped{io.EOF}}
 
 type wrapped struct{ err error }
 
